@@ -403,8 +403,8 @@ def r4_queries_scoped(ctx):
                     '"sequence minus applied"', key='unapplied-shape')
 
 
-def r5_batch_labels(ctx):
-    ctx.rule('R-C08.5')
+def r5_batch_labels(ctx, rule_id='R-C08.5'):
+    ctx.rule(rule_id)
     p = ctx.program
     f = p.func(TASK, 'EvolveAppTask._build_batches')
     # producer: task_info.setdefault('evolutions', []).append(evolution.label)
